@@ -153,7 +153,7 @@ def send(cl, ep, defect, port):
 
 def prepare(site, g):
     cl = s3c.Client(g.port, "root", "rootsecret")
-    ok = cl.req("PUT", "/bk1", headers={"x-amz-object-lock-enabled": "true"}).status == 200
+    ok = cl.req("PUT", "/bk1", headers={"x-amz-bucket-object-lock-enabled": "true"}).status == 200
     ok &= cl.req("PUT", "/bk2").status == 200
     ok &= cl.req("PUT", "/bk1/obj", body=MARKER + b"-object-body", headers={"x-amz-meta-secret": MARKER.decode()}).status == 200
     ok &= cl.req("PUT", "/bk1/obj2", body=MARKER + b"-2").status == 200
